@@ -10,6 +10,7 @@ def oracle(c, o):
 
 
 SPEC = {
+    "text_fidelity": True,
     "prop_file": "Properties/C03.v",
     "gen": solcore.gen,
     "oracle": oracle,
